@@ -7,7 +7,7 @@ package main
 import (
 	"go/types"
 
-	"golang.org/x/tools/go/ssa"
+	"gclverify/xt/ssa"
 )
 
 func (p *Prog) callees(f *ssa.Function) []*ssa.Function {
